@@ -10,7 +10,7 @@ from vf.sim.model import Model, atom_target, valid_points
 
 PROP_ID = 'C32'
 LEVEL = 'exploration'
-BUDGET = {'quick': 480, 'thorough': 10000}
+BUDGET = {'quick': 400, 'thorough': 10000}
 MANIFEST = {
     'engine': 'S',
     'technique': 'PBT on the stepped scheduler with a virtual wall clock: '
@@ -22,13 +22,13 @@ RULE = (
     '1-3 clock-expire tasks with offsets from -P1D to +P2D, 0-3 expire '
     'children (x:expired? => c, also with a -P1D offset, or-ed with x '
     'succeeded, and-ed with another task), optional runahead limit P0-P3, '
-    'execution retries with delays PT0S..P1D and failing first jobs (tasks '
+    'execution retries with delays PT0S..P3D and failing first jobs (tasks '
     'waiting again), virtual clock started between 2 days before and 2 days '
     'after the expiry time of one clock-expire instance, schedules of '
     'main-loop iterations, command returns, job steps, message deliveries, '
     'clock ticks of 1 s .. 2 days '
     'and manual triggers of pooled / finished / unspawned instances, then a '
-    'fair drain, then 0-3 further (tick, drain) rounds.  Oracle on the '
+    'fair drain, then 1-3 further (tick, drain) rounds.  Oracle on the '
     'trace: every transition to expired is of a task with a clock-expire '
     'offset that was waiting, was not manually triggered (no accepted '
     'trigger command naming it since it last entered job preparation) and '
@@ -46,9 +46,11 @@ ASSUMPTIONS = [
     'the instance has not entered job preparation since (the scheduler '
     'clears its own flag at that point, so a retry of a triggered task may '
     'expire).',
-    'Expiry events are the monitored status changes to expired; cylc set '
-    '--out=expired, expire (suicide) triggers, reload and restart are '
-    'outside the generated domain.',
+    'Expiry events are the monitored status changes to expired of pooled '
+    'tasks made through process_message (the data store resets ghost '
+    'proxies of finished tasks to their DB status; those are not tasks); '
+    'cylc set --out=expired, expire (suicide) triggers, reload and restart '
+    'are outside the generated domain.',
     'Expiry time = cycle point + offset computed by the harness '
     '(2000-01-01T00Z + (n-1) days + a table of offset strings); UTC mode.',
     '"Spawns exactly its expire children": adds to the pool between the '
@@ -141,13 +143,19 @@ def cases(draw):
                 'exec': n, 'exec_delays': [
                     draw(st.sampled_from(RETRY_DELAYS)) for _ in range(n)]}
     outcomes = draw(outcome_maps(spec, max_subs=2))
+    insts = [(t, p) for (t, p) in Model(spec).instances() if t in ce_tasks]
+    if insts and draw(st.booleans()):
+        # a clock-expire instance that fails once and waits for its retry
+        t, p = draw(st.sampled_from(insts))
+        spec['retries'][t] = {'exec': 1, 'exec_delays': [
+            draw(st.sampled_from(['PT10M', 'PT2H', 'P1D', 'P3D']))]}
+        outcomes[f'{p}/{t}'] = [{'final': 'failed'}, {'final': None}]
     sched = draw(st.lists(st.tuples(
         st.sampled_from(['loop', 'loop', 'loop', 'ret', 'adv', 'del', 'del',
                          'tk', 'tk', 'trigger', 'trigger']),
         st.integers(0, 15)).map(list), max_size=50))
     tail = draw(st.lists(st.sampled_from([3600, 43200, DAY, 3 * DAY]),
-                         max_size=3))
-    insts = [(t, p) for (t, p) in Model(spec).instances() if t in ce_tasks]
+                         min_size=1, max_size=3))
     clock0 = draw(st.sampled_from(CLOCK0))
     if insts:
         t, p = draw(st.sampled_from(insts))
@@ -280,13 +288,35 @@ def _oracle(case, sc, viol, t_start, initial) -> CaseResult:
         elif k == 'state':
             key = (ev['cycle'], ev['name'])
             old, new = ev['before'][0], ev['after'][0]
-            if key in in_pool:
-                status[key] = new
+            # The data store builds ghost proxies of finished tasks and
+            # resets them to their DB status (no call site in the scheduler's
+            # message / pool code): those are not pool tasks.
+            ghost = key not in in_pool or not ev['site'] or (
+                new == 'expired' and 'process_message' not in ev['site'])
+            if ghost:
+                if key in in_pool:
+                    classes.add('ghost-proxy-of-pooled-task')
+                continue
+            if new == 'expired' and old != 'expired':
+                # tasks added while the expired output is processed: up to
+                # the removal of the expired task (complete) or the end of
+                # its expired message (retained)
+                j = i + 1
+                adds = []
+                while j < len(trace):
+                    e2 = trace[j]
+                    if e2['k'] == 'iter-end' or (
+                            e2['k'] in ('pm', 'remove')
+                            and (e2['cycle'], e2['name']) == key
+                            and e2.get('msg', 'expired') == 'expired'):
+                        break
+                    if e2['k'] == 'add':
+                        adds.append((e2['cycle'], e2['name']))
+                    j += 1
+            status[key] = new
             if new == 'preparing' and old != 'preparing':
                 manual_pending.discard(key)
-            if new != 'expired' or old == 'expired' or key not in in_pool:
-                # (proxies outside the pool - the data store builds ghost
-                # proxies of finished tasks from the DB - are not tasks)
+            if new != 'expired' or old == 'expired':
                 continue
             # ---- an expiry event ----
             n_expired += 1
@@ -323,21 +353,7 @@ def _oracle(case, sc, viol, t_start, initial) -> CaseResult:
                 classes.add('expired-while-waiting-for-retry')
             if et is not None and t_start < et:
                 classes.add('expired-after-clock-crossed-expiry-time')
-            # children spawned by the expired output
-            j = i + 1
-            adds = []
-            removed = False
-            while j < len(trace):
-                e2 = trace[j]
-                if e2['k'] == 'iter-end' or (
-                        e2['k'] == 'pm' and e2['msg'] == 'expired'
-                        and (e2['cycle'], e2['name']) == key):
-                    break
-                if e2['k'] == 'remove' and (e2['cycle'], e2['name']) == key:
-                    removed = True
-                if e2['k'] == 'add' and not removed:
-                    adds.append((e2['cycle'], e2['name']))
-                j += 1
+            # children spawned by the expired output (adds, see above)
             p = to_int.get(key[0])
             kids = {(sc.drv.to_str[q], c)
                     for (c, q) in expire_children(model, key[1], p)}
